@@ -202,18 +202,41 @@ Theorem C13_refuted_py_then_fortran_err : exists h m file, obs_of_fortran (run_h
 Proof. exists [Compile M0 false false false], M1, "m". vm_compute. reflexivity. Qed.
 Print Assumptions C13_refuted_py_then_fortran_err.
 
-(* D28: from_yaml(p).update_var(...) mutates the cached template; circuit.clear()/clear=True do not cure it *)
-Theorem C13_refuted_template_cache_mutation : exists h, CachesClean h = true /\ obs_of_yaml (run_hist h G0) <> obs_of_yaml G0.
+(* D28: from_yaml(p).update_var(...) mutates the cached template; circuit.clear()/clear=True do not cure it
+   (history-level witness for the code as it is: switch fixed_yaml_copy = false) *)
+Theorem C13_refuted_template_cache_mutation : fixed_yaml_copy = false ->
+  exists h, CachesClean h = true /\ obs_of_yaml (run_hist h G0) <> obs_of_yaml G0.
 Proof.
-  exists [YUpd (mkq 5 1); YLoad true]. split; [vm_compute; reflexivity|]. apply obs_neq. vm_compute. reflexivity.
+  intros H.
+  first [ cbv in H; discriminate H
+        | exists [YUpd (mkq 5 1); YLoad true]; split; [vm_compute; reflexivity|]; apply obs_neq; vm_compute; reflexivity ].
 Qed.
 Print Assumptions C13_refuted_template_cache_mutation.
 
-(* D26: no history needed — two different operator templates named `op` in one circuit: the second gets the first one's
-   equation and default value (M7 compiles to what M7' compiles to) *)
-Theorem C13_refuted_op_cache_within_one_circuit : forall vec, obs_of G0 M7 vec = obs_of G0 M7' vec.
-Proof. intros [|]; vm_compute; reflexivity. Qed.
-Print Assumptions C13_refuted_op_cache_within_one_circuit.
+(* the same on from_yaml itself, for either value of the switch: before the repair a cache that holds a mutated circuit hands it
+   out; with proposed_fix_C13_D28.diff NO state of the cache makes from_yaml hand out a mutated circuit *)
+Theorem C13_from_yaml_before_fix : exists g, tc_kA (snd (from_yaml_k false g)) <> None.
+Proof. exists (set_template (Some {| tc_obj := 0%nat; tc_kA := Some (mkq 5 1) |}) G0). cbn. discriminate. Qed.
+Print Assumptions C13_from_yaml_before_fix.
+
+Theorem C13_from_yaml_fixed : forall g, tc_kA (snd (from_yaml_k true g)) = None.
+Proof. intros g. unfold from_yaml_k. destruct (template_cache g); reflexivity. Qed.
+Print Assumptions C13_from_yaml_fixed.
+
+(* D26/D9, stated on the IR nodes that phase 1 builds (either value of the switch fixed_op_cache_key):
+   BEFORE the repair (name-keyed cache) two different operator templates named `op` in ONE circuit (M7): the second node gets the
+   first one's equation; and a second circuit's operator `op` (M1: equation E2) gets the equation E1 a previous circuit left *)
+Theorem C13_refuted_op_cache_by_name_before_fix :
+  map n_eq (phase1_k false [] M7) = [E1; E1] /\ map m_eq (m_nodes M7) = [E1; E2] /\
+  map n_eq (phase1_k false [("op", (E1, mkq 2 1))] M1) = [E1] /\ map m_eq (m_nodes M1) = [E2].
+Proof. vm_compute. repeat split; reflexivity. Qed.
+Print Assumptions C13_refuted_op_cache_by_name_before_fix.
+
+(* WITH the structural key (proposed_fix_C13_op_cache_key.diff): for ALL models and ALL cache contents every IR node carries its own
+   operator's equation and its own default (or node-level) value *)
+Theorem C13_op_cache_key_fixed : forall opc m, map (fun c => (n_eq c, n_units c)) (phase1_k true opc m) = map own_def (m_nodes m).
+Proof. exact op_cache_key_fixed. Qed.
+Print Assumptions C13_op_cache_key_fixed.
 
 (* a vectorized compilation that inherits a node from an uncleared NON-vectorized one raises KeyError *)
 Theorem C13_refuted_crash : exists h m, obs_of (run_hist h G0) m true = OErr "KeyError".
